@@ -16,6 +16,7 @@ Theorem C09_digest_id_range : forall (release : bool) (i : Z),
   in_i32 i = true ->
   digest_id_new release i = Z.min (Z.abs i) 2147483647 /\ digest_id_in_range (digest_id_new release i).
 Proof. exact c09_digest_id_range. Qed.
+Print Assumptions C09_digest_id_range.
 
 (* the former witness of F3: i32::MIN now gives 2^31-1 in both build modes; so do +-(2^31-1) *)
 Example C09_ex_digest_id_min :
@@ -30,6 +31,7 @@ Theorem C09_draws_are_i32 :
   (forall w, in_i32 (i32_of_word w) = true) /\
   (forall i, in_i32 i = true -> exists w, w < 4294967296 /\ i32_of_word w = i).
 Proof. exact c09_draws_are_i32. Qed.
+Print Assumptions C09_draws_are_i32.
 
 (* ---------- issued documents ---------- *)
 
@@ -40,6 +42,7 @@ Theorem C09_every_element_once : forall release q t x5 sign m,
   map (fun x => (fst x, map (fun it => (it_ident it, it_value it)) (snd x))) (m_namespaces m) = q_namespaces q /\
   map fst (mso_value_digests (m_mso m)) = map fst (q_namespaces q).
 Proof. exact c09_every_element_once. Qed.
+Print Assumptions C09_every_element_once.
 
 (* every item carries exactly 16 bytes taken from the random tape; no namespace is empty *)
 Theorem C09_random_len : forall release q t x5 sign m,
@@ -47,6 +50,7 @@ Theorem C09_random_len : forall release q t x5 sign m,
   forall ns its, In (ns, its) (m_namespaces m) ->
     its <> [] /\ Forall (fun it => length (it_random it) = 16%nat) its.
 Proof. exact c09_random_len. Qed.
+Print Assumptions C09_random_len.
 
 (* digest ids are unique within a namespace: among the items, among all entries of
    valueDigests[ns], and the decoy ids are distinct from each other and from every item id *)
@@ -59,6 +63,7 @@ Theorem C09_ids_unique : forall release q t x5 sign m,
       (forall z, In z (map fst decoys) -> ~ In z (map it_id its)) /\
       (forall k, In k (map fst vd) <-> In k (map it_id its) \/ In k (map fst decoys)).
 Proof. exact c09_ids_unique. Qed.
+Print Assumptions C09_ids_unique.
 
 (* every digest id of the document (items and decoys) lies in 0 .. 2^31-1, whatever was drawn *)
 Theorem C09_ids_in_range : forall release q t x5 sign m,
@@ -67,16 +72,19 @@ Theorem C09_ids_in_range : forall release q t x5 sign m,
     (forall it, In it its -> In (it_id it) (map fst vd)) /\
     forall k, In k (map fst vd) -> digest_id_in_range k.
 Proof. exact c09_ids_in_range. Qed.
+Print Assumptions C09_ids_in_range.
 
 (* issuance never panics, and does not depend on the build mode *)
 Theorem C09_never_panics : forall release q t x5 sign,
   prepare release q t <> Panic /\ issue release q t x5 sign <> Panic.
 Proof. exact c09_never_panics. Qed.
+Print Assumptions C09_never_panics.
 
 Theorem C09_build_mode_irrelevant : forall q t x5 sign,
   (forall i, digest_id_new true i = digest_id_new false i) /\
   prepare true q t = prepare false q t /\ issue true q t x5 sign = issue false q t x5 sign.
 Proof. exact c09_build_mode_irrelevant. Qed.
+Print Assumptions C09_build_mode_irrelevant.
 
 (* the former witness of F3 at document level: the draw 0x80000000 (i32::MIN) now yields the id
    2^31-1 in both build modes; the draws 0x7fffffff and 0x80000001 (+-(2^31-1)) give the same id
@@ -109,6 +117,7 @@ Theorem C09_digests_correct : forall release q t x5 sign m,
                   end in
     In (it_id it, digest) vd /\ forall d, In (it_id it, d) vd -> d = digest.
 Proof. exact c09_digests_correct. Qed.
+Print Assumptions C09_digests_correct.
 
 (* valueDigests[ns] consists of exactly the items' entries and the decoy entries; a decoy's id is
    no element's id (so no element refers to a decoy digest); decoys exist only when enabled, and
@@ -121,6 +130,7 @@ Theorem C09_decoys_are_decoys : forall release q t x5 sign m,
     (forall z, In z (map fst decoys) -> ~ In z (map it_id its)) /\
     ((q_decoys q = false /\ decoys = []) \/ (q_decoys q = true /\ (5 <= length decoys <= 9)%nat)).
 Proof. exact c09_decoys_are_decoys. Qed.
+Print Assumptions C09_decoys_are_decoys.
 
 (* issuerAuth: payload = #6.24(bstr .cbor returned MSO); protected header exactly {1: alg};
    unprotected header = {33: x5chain}; the signature is the signer's answer to the RFC 8152
@@ -143,6 +153,7 @@ Theorem C09_issuer_auth : forall release q t x5 sign m,
     v_check v (rfc_tbs_sign1 protected [] payload) (c_sig (m_issuer_auth m)) = true ->
     verify ctx_sign1 v (m_issuer_auth m) None None = VSuccess.
 Proof. exact c09_issuer_auth. Qed.
+Print Assumptions C09_issuer_auth.
 
 (* direct signing = prepare, sign the offered payload, complete *)
 Theorem C09_issue_is_prepare_complete : forall release q t x5 sign,
@@ -152,6 +163,7 @@ Theorem C09_issue_is_prepare_complete : forall release q t x5 sign,
   | Err e => Err e | Panic => Panic | OutOfTape => OutOfTape
   end.
 Proof. exact issue_is_prepare_complete. Qed.
+Print Assumptions C09_issue_is_prepare_complete.
 
 (* refusals: prepare answers Err exactly for contradictory key authorisations, an empty namespace
    map, or a namespace without elements (and never for another reason); in these cases nothing is
@@ -165,6 +177,7 @@ Theorem C09_refusals : forall release q t,
   (contradictory_auth q -> exists ns, prepare release q t = Err (EDoubleAuthorized ns)) /\
   (~ contradictory_auth q -> q_namespaces q = [] -> prepare release q t = Err ENoNamespaces).
 Proof. exact c09_refusals. Qed.
+Print Assumptions C09_refusals.
 
 (* the model's documents satisfy the ISO-level statement of Spec/IssuanceSpec.v (which is written
    over the encoded document), for well-formed inputs *)
@@ -175,14 +188,17 @@ Theorem C09_meets_iso_spec : forall verify_sig release q t x5 sign m,
   (forall tbs sg, sign tbs = Some sg -> verify_sig tbs sg = true) ->
   issued_ok verify_sig (request_of q x5) (observe m).
 Proof. exact issue_meets_spec. Qed.
+Print Assumptions C09_meets_iso_spec.
 
 (* the executable checker run by the harness on the implementation's documents is sound for it *)
 Theorem C09_checker_sound : forall verify_sig req o,
   issued_check verify_sig req o = None -> issued_ok verify_sig req o.
 Proof. exact issued_check_sound. Qed.
+Print Assumptions C09_checker_sound.
 
 Theorem C09_refusal_checker : forall req, must_refuse_b req = true <-> must_refuse req.
 Proof. exact must_refuse_b_iff. Qed.
+Print Assumptions C09_refusal_checker.
 
 (* ---------- the source shapes the model was written against (regenerated by the translator on
    every run; an edit of these places in /repo makes this file fail to build) ---------- *)
